@@ -17,12 +17,10 @@ type Edit struct {
 func LineNumber(source string, head int) (int, int) {
 	// Calculate the true line and column number for a query, ignoring spaces
 	var comment bool
-	var loc, line, col int
+	var line, col int
 	for i, char := range source {
-		loc += 1
 		col += 1
-		// TODO: Check bounds
-		if char == '-' && source[i+1] == '-' {
+		if char == '-' && i+1 < len(source) && source[i+1] == '-' {
 			comment = true
 		}
 		if char == '\n' {
@@ -30,7 +28,8 @@ func LineNumber(source string, head int) (int, int) {
 			line += 1
 			col = 0
 		}
-		if loc <= head {
+		// head is a byte offset, as reported by the parsers
+		if i < head {
 			continue
 		}
 		if unicode.IsSpace(char) {
